@@ -512,7 +512,15 @@ def rule_placement(ctx: Ctx, rid="C13.PLACEMENT"):
                         problems.append(f"string literal content lands inside an f-string ({norm(parents[node])[:60]}): "
                                         "braces in the literal are evaluated")
                     elif m.group(0) != node.value:
-                        pass  # embedded in a larger constant: still inert data
+                        # embedded in a larger string constant of the generated text (a docstring, a message).  With the harmless
+                        # placeholder this parses; but the value was quoted for standing alone, not for sitting between the
+                        # delimiters of that outer literal: a content that contains the outer delimiter (three double quotes in a
+                        # docstring) ends the outer literal and continues as code
+                        outer = ast.get_source_segment(o.text, node) or ""
+                        delim = outer[:3] if outer[:3] in ('\'\'\'', '"""') else outer[:1]
+                        problems.append(f"string literal content is embedded inside another string literal of the generated module "
+                                        f"(delimiter {delim}): its own quoting does not protect that delimiter, a content containing it "
+                                        "ends the outer literal and the rest is code")
             elif isinstance(node, ast.Name) and PLACE_RE.fullmatch(node.id or ""):
                 problems.append(f"string literal content is used as a name: {node.id}")
         for uid, k in want.items():
